@@ -37,6 +37,15 @@ def mutations(args, values=None, only_arg=None):
                     dup = deep(cur)
                     dup["copy_of_" + str(k0)] = deep(cur[k0])
                     yield ("dup", ai, p, None), args[:ai] + (set_at(a, p, dup),) + args[ai + 1:]
+            if isinstance(cur, dict) and cur:
+                # a field under a near-miss of its name (same number of fields): capitalised, trailing blank, singular/plural slip
+                for k in list(cur)[:4]:
+                    if isinstance(k, str) and k:
+                        for nk in (k.capitalize() if k.capitalize() != k else k.lower() + "_", k + " ", k[:-1] if len(k) > 1 else k + "x"):
+                            if nk in cur:
+                                continue
+                            ren = {(nk if kk == k else kk): deep(vv) for kk, vv in cur.items()}
+                            yield ("rename", ai, p, None), args[:ai] + (set_at(a, p, ren),) + args[ai + 1:]
             if isinstance(cur, list) and cur:
                 yield ("dupitem", ai, p, None), args[:ai] + (set_at(a, p, deep(cur) + [deep(cur[0])]),) + args[ai + 1:]
 
